@@ -57,7 +57,9 @@ TraceAux ==
   /\ UNCHANGED <<cid, ncases>>
 TraceLeaf ==
   /\ IsEv("leafprobe")
-  /\ LET e == Trace[l] IN Rec(Cl(e.parser_accepts => e.schema_valid, "C17.accepted_leaf_validates"), {}, {})
+  /\ LET e == Trace[l] IN Rec(Cl(e.parser_accepts => e.schema_valid, "C17.accepted_leaf_validates")
+                              \* ... and vice versa: a key path the schema allows (with a type-correct value) is accepted by the parser
+                              \cup Cl(e.schema_valid => e.parser_accepts, "C17.schema_allowed_leaf_is_accepted"), {}, {})
   /\ UNCHANGED <<cid, ncases>>
 TraceEof ==
   /\ IsEv("eof")
